@@ -1,0 +1,13 @@
+//go:build verif
+
+package bitcoin
+
+// Verification hook (build tag verif): re-exports existing identifiers only.
+
+// VerifSignaturePlaceholderLength is the byte length of the signature
+// placeholder used by the TransactionSizeEstimator.
+func VerifSignaturePlaceholderLength() int { return len(signaturePlaceholder) }
+
+// VerifPublicKeyPlaceholderLength is the byte length of the public key
+// placeholder used by the TransactionSizeEstimator.
+func VerifPublicKeyPlaceholderLength() int { return len(publicKeyPlaceholder) }
